@@ -191,7 +191,10 @@ def HeadNotRp : List Tok → Prop
 theorem prE_head (e : Expr) (h : Frag env e) : HeadNotRp (prE e) := by
   cases e with
   | int n => simp [prE, HeadNotRp]
-  | str s => simp [prE, HeadNotRp]
+  | str s =>
+    by_cases h0 : s = []
+    · simp [prE, strToks, h0, HeadNotRp]
+    · cases hc : nameOfConstant s <;> simp [prE, strToks, h0, hc, HeadNotRp]
   | float d s => simp [prE, HeadNotRp]
   | sym n => simp [prE, HeadNotRp]
   | var k n => simp [prE, HeadNotRp]
@@ -271,14 +274,39 @@ theorem pE5_call (f : Nat) (s : Name) (t : Tok) (r1 : List Tok) (as : List Expr)
   · rename_i heq; simp at heq; exact absurd heq.1 ht
   · simp [h]
 
-theorem pE5_var (f : Nat) (k : VarKind) (n : Name) (rest : List Tok) (hp : PlainId n) (hr : env.resolve n = .var k n) (hn : NoLp rest) :
-    pE5 env (f + 2) (.id n :: rest) = some (.var k n, rest) := by
+theorem pE5_id (f : Nat) (n : Name) (rest : List Tok) (hp : PlainId n) (hn : NoLp rest) :
+    pE5 env (f + 2) (.id n :: rest) = some (env.resolve n, rest) := by
   obtain ⟨h1, h2, h3, h4, h5⟩ := hp
   simp only [pE5, h1, h2, pSimple, h3, h4, h5]
   simp
   split
   · exact absurd hn (by simp [NoLp])
-  · simp [hr]
+  · rfl
+
+theorem pE5_var (f : Nat) (k : VarKind) (n : Name) (rest : List Tok) (hp : PlainId n) (hr : env.resolve n = .var k n) (hn : NoLp rest) :
+    pE5 env (f + 2) (.id n :: rest) = some (.var k n, rest) := by
+  rw [pE5_id env f n rest hp hn, hr]
+
+/-- the named constants: writing the name and resolving it gives the string back, and the names are not words of the grammar -/
+theorem namedConstants_ok : ∀ x ∈ namedConstants, namedConstantOf x.1.toList = some x.2 ∧
+    (Tok.id x.1.toList).kw "not" = false ∧ (Tok.id x.1.toList).kw "sprite" = false ∧ (Tok.id x.1.toList).kw "the" = false
+      ∧ (Tok.id x.1.toList).kw "field" = false ∧ chunkOfSingular x.1.toList = none := by decide +kernel
+
+theorem nameOfConstant_spec (s c : Name) (h : nameOfConstant s = some c) :
+    namedConstantOf c = some s ∧ PlainId c := by
+  unfold nameOfConstant at h
+  cases hf : namedConstants.find? (fun x => x.2 == s) with
+  | none => simp [hf] at h
+  | some x =>
+    simp [hf] at h
+    have hx := List.mem_of_find?_eq_some hf
+    have hs : x.2 = s := by simpa using List.find?_some hf
+    have := namedConstants_ok x hx
+    subst h; subst hs
+    exact ⟨this.1, this.2⟩
+
+theorem resolve_constant (c s : Name) (h : namedConstantOf c = some s) : env.resolve c = .str s := by
+  simp [Env.resolve, h]
 
 theorem pE5_sprite_i (f : Nat) (X r2 r3 : List Tok) (a b : Expr)
     (h1 : pE5 env f X = some (a, kw "intersects" :: r2)) (h2 : pE5 env f r2 = some (b, r3)) :
@@ -370,9 +398,17 @@ theorem rp_e5 : ∀ (e : Expr), Frag env e → ∀ (rest : List Tok), NoLp rest 
   | .int n, _, rest, _, F, hF => by
     obtain ⟨f, rfl⟩ : ∃ f, F = f + 2 := ⟨F - 2, by simp [fuelOf] at hF; omega⟩
     simp [prE, pE5, pSimple, kw_num]
-  | .str s, _, rest, _, F, hF => by
+  | .str s, _, rest, hn, F, hF => by
     obtain ⟨f, rfl⟩ : ∃ f, F = f + 2 := ⟨F - 2, by simp [fuelOf] at hF; omega⟩
-    simp [prE, pE5, pSimple, kw_str]
+    by_cases h0 : s = []
+    · subst h0; simp [prE, strToks, pE5, pSimple, kw_str]
+    · cases hc : nameOfConstant s with
+      | none => simp [prE, strToks, h0, hc, pE5, pSimple, kw_str]
+      | some c =>
+        obtain ⟨h1, h2⟩ := nameOfConstant_spec s c hc
+        have := pE5_id env f c rest h2 hn
+        rw [resolve_constant env c s h1] at this
+        simpa [prE, strToks, h0, hc] using this
   | .float d s, _, rest, _, F, hF => by
     obtain ⟨f, rfl⟩ : ∃ f, F = f + 2 := ⟨F - 2, by simp [fuelOf] at hF; omega⟩
     simp [prE, pE5, pSimple, kw_flt]
